@@ -79,6 +79,13 @@ def solve_dump(rec, outcome, with_results=True, with_counters=True):
     if rec.get("weights"):
         out["heuristic_weights"] = [_arr(W) for W in rec["weights"]]
     w = rec.get("wrapper")
+    # size of the problem the back-end finally holds (cvxpy: constraints and scalar variables of the last Problem built)
+    try:
+        if type(w).__name__ == "CvxpyWrapper" and getattr(w, "prob", None) is not None:
+            out["solver_problem_size"] = {"constraints": len(w.prob.constraints),
+                                          "scalar_variables": int(sum(v.size for v in w.prob.variables()))}
+    except Exception:
+        pass
     task = getattr(w, "task", None)
     if task is not None and hasattr(task, "calls"):
         # MOSEK back-end (stand-in): the full sequence of Task calls with their arguments is part of the solver input
